@@ -68,8 +68,23 @@ def oracle(case, impl_lines, model_lines):
     return None
 
 
+def lru_aspect(diff):
+    """The recency order, the capacity and which memos hold a value are specified by the
+    proved LRU model (C05_recency, C05_bound, C05_evicts_exactly): a state difference there
+    is a violation of C05 with the case as failing input."""
+    if diff.get("level") != "state" or not diff.get("impl") or not diff.get("model"):
+        return False
+    mi, li = parse_state(diff["impl"])
+    mm, lm = parse_state(diff["model"])
+    if li != lm:
+        return True
+    keys = set(mi) | set(mm)
+    return any(mi.get(k, {}).get("hv") != mm.get(k, {}).get("hv") for k in keys)
+
+
 def run(ctx):
     seqcheck.run_seq(ctx, ["lru", "general"], n_quick=400, n_thorough=6000, oracle=oracle,
+                     corr_is_violation=lru_aspect,
                      nontrivial_rule=lambda f: "evicted" in f and "exec_after_evict" in f,
                      thm_note=open(__file__.replace("C05.py", "notes/C05.txt")).read())
 
